@@ -1,5 +1,6 @@
 import Mathlib.Analysis.SpecialFunctions.Pow.Real
 import Mathlib.Analysis.SpecialFunctions.Sqrt
+import Mathlib.Analysis.SpecialFunctions.Gaussian.GaussianIntegral
 import Mathlib.Algebra.BigOperators.Group.List.Basic
 import Mathlib.Algebra.Order.BigOperators.Group.List
 import CopVerif.Real.Inst
@@ -266,5 +267,131 @@ theorem kdePdfWith_nonneg {c h : ℝ} (hc : 0 ≤ c) (hh : 0 < h) (xs ws : List 
   simp only [List.getElem_zipWith]
   have hwi : 0 ≤ ws[i]'(by simp at hi; omega) := hw _ (List.getElem_mem _)
   exact div_nonneg (mul_nonneg hwi (gaussKernel_nonneg hc _)) hh.le
+
+/-! ### equal weights: the classical kernel estimate -/
+
+theorem nEff_unweighted {n : ℕ} (hn : 0 < n) : nEff (normWeights (α := ℝ) n none) = n := by
+  have h : (n : ℝ) ≠ 0 := by exact_mod_cast hn.ne'
+  simp [nEff, sumSq, normWeights, sumList_eq_sum, List.map_replicate, List.sum_replicate]
+
+theorem zipWith_replicate_sum (f : ℝ → ℝ) (c : ℝ) (xs : List ℝ) :
+    (List.zipWith (fun xi wi => wi * f xi) xs (List.replicate xs.length c)).sum = c * (xs.map f).sum := by
+  induction xs with
+  | nil => simp
+  | cons a l ih => simp [List.replicate_succ, ih]; ring
+
+theorem weightedMean_unweighted {xs : List ℝ} (h : xs ≠ []) :
+    weightedMean xs (normWeights xs.length none) = mean xs := by
+  have hn := length_pos_real h
+  have := zipWith_replicate_sum (fun x => x) (1 / (xs.length : ℝ)) xs
+  simp only [weightedMean, normWeights, sumList_eq_sum, ofNat_real, mean, Nat.cast_one]
+  rw [this]; simp; field_simp
+
+theorem weightedVar_unweighted {xs : List ℝ} (h2 : 2 ≤ xs.length) :
+    weightedVar xs (normWeights xs.length none)
+      = (xs.map fun x => (x - mean xs) ^ 2).sum / ((xs.length : ℝ) - 1) := by
+  have h : xs ≠ [] := by intro h0; simp [h0] at h2
+  have hn := length_pos_real h
+  have hn1 : (xs.length : ℝ) - 1 ≠ 0 := by
+    have : (2 : ℝ) ≤ xs.length := by exact_mod_cast h2
+    linarith
+  have hm := weightedMean_unweighted h
+  have := zipWith_replicate_sum (fun x => (x - mean xs) * (x - mean xs)) (1 / (xs.length : ℝ)) xs
+  unfold weightedVar
+  rw [hm]
+  simp only [normWeights, sumList_eq_sum, ofNat_real, sumSq, List.map_replicate, List.sum_replicate, Nat.cast_one] at this ⊢
+  rw [this]
+  simp only [nsmul_eq_mul, sq]
+  field_simp
+
+/-! ### the kernel estimate integrates to the total weight -/
+
+noncomputable def g0 (z : ℝ) : ℝ := Real.exp (-((z * z) / 2))
+
+theorem g0_eq : g0 = fun z => Real.exp (-(1 / 2) * z ^ 2) := by
+  funext z; unfold g0; congr 1; ring
+
+theorem integrable_g0 : MeasureTheory.Integrable g0 := by
+  rw [g0_eq]; exact integrable_exp_neg_mul_sq (by norm_num)
+
+theorem integral_g0 : ∫ z, g0 z = Real.sqrt (2 * Real.pi) := by
+  rw [g0_eq, integral_gaussian]; congr 1; ring
+
+theorem gaussKernel_eq (c z : ℝ) : gaussKernel c z = c * g0 z := by
+  simp [gaussKernel, g0]
+
+theorem term_eq (c w h xi : ℝ) :
+    (fun x => w * gaussKernel c ((x - xi) / h) / h) = fun x => (w * c / h) * g0 ((x - xi) / h) := by
+  funext x; rw [gaussKernel_eq]; ring
+
+theorem term_integrable (c w xi : ℝ) {h : ℝ} (hh : h ≠ 0) :
+    MeasureTheory.Integrable (fun x => w * gaussKernel c ((x - xi) / h) / h) := by
+  rw [term_eq]
+  exact ((integrable_g0.comp_div hh).comp_sub_right xi).const_mul _
+
+theorem term_integral (c w xi : ℝ) {h : ℝ} (hh : 0 < h) :
+    ∫ x, w * gaussKernel c ((x - xi) / h) / h = w * (c * Real.sqrt (2 * Real.pi)) := by
+  rw [term_eq, MeasureTheory.integral_const_mul, MeasureTheory.integral_sub_right_eq_self (fun y => g0 (y / h)) xi,
+    MeasureTheory.Measure.integral_comp_div, integral_g0, abs_of_pos hh, smul_eq_mul]
+  field_simp
+
+theorem kdePdfWith_integrable (c : ℝ) {h : ℝ} (hh : h ≠ 0) (xs ws : List ℝ) :
+    MeasureTheory.Integrable (fun x => kdePdfWith c xs ws h x) := by
+  simp only [kdePdfWith, sumList_eq_sum]
+  induction xs generalizing ws with
+  | nil => simp
+  | cons a l ih =>
+    cases ws with
+    | nil => simp
+    | cons w ws =>
+      simp only [List.zipWith_cons_cons, List.sum_cons]
+      exact (term_integrable c w a hh).add (ih ws)
+
+theorem kdePdfWith_integral (c : ℝ) {h : ℝ} (hh : 0 < h) (xs ws : List ℝ) (hlen : xs.length = ws.length) :
+    ∫ x, kdePdfWith c xs ws h x = ws.sum * (c * Real.sqrt (2 * Real.pi)) := by
+  induction xs generalizing ws with
+  | nil =>
+    have : ws = [] := List.length_eq_zero_iff.1 (by simpa using hlen.symm)
+    simp [kdePdfWith, sumList_eq_sum, this]
+  | cons a l ih =>
+    cases ws with
+    | nil => simp at hlen
+    | cons w ws =>
+      have hl : l.length = ws.length := by simpa using hlen
+      have h1 := term_integrable c w a hh.ne'
+      have h2 := kdePdfWith_integrable c hh.ne' l ws
+      have : (fun x => kdePdfWith c (a :: l) (w :: ws) h x)
+          = fun x => w * gaussKernel c ((x - a) / h) / h + kdePdfWith c l ws h x := by
+        funext x; simp [kdePdfWith, sumList_eq_sum]
+      rw [this, MeasureTheory.integral_add h1 h2, term_integral c w a hh, ih ws hl]
+      simp only [List.sum_cons]; ring
+
+/-- with the exact normalising constant the kernel estimate integrates to the total weight. -/
+theorem kdePdf_integrates {h : ℝ} (hh : 0 < h) (xs ws : List ℝ) (hlen : xs.length = ws.length) :
+    ∫ x, kdePdfWith (1 / Real.sqrt (2 * Real.pi)) xs ws h x = ws.sum := by
+  rw [kdePdfWith_integral _ hh xs ws hlen]
+  have : Real.sqrt (2 * Real.pi) ≠ 0 := by positivity
+  field_simp
+
+
+theorem normWeights_sum {n : ℕ} (hn : 0 < n) (w : Option (List ℝ))
+    (hw : ∀ ws, w = some ws → ws.sum ≠ 0) : (normWeights n w).sum = 1 := by
+  have hn' : (n : ℝ) ≠ 0 := by exact_mod_cast hn.ne'
+  cases w with
+  | none => simp [normWeights, List.sum_replicate, hn']
+  | some ws =>
+    have hs := hw ws rfl
+    have : ∀ (l : List ℝ) (s : ℝ), (l.map (· / s)).sum = l.sum / s := by
+      intro l s; induction l with
+      | nil => simp
+      | cons a l ih => simp [ih, add_div]
+    simp only [normWeights, sumList_eq_sum, this]
+    exact div_self hs
+
+theorem normWeights_length (n : ℕ) (w : Option (List ℝ)) (hw : ∀ ws, w = some ws → ws.length = n) :
+    (normWeights n w).length = n := by
+  cases w with
+  | none => simp [normWeights]
+  | some ws => simp [normWeights, hw ws rfl]
 
 end CopVerif.Estimators
